@@ -1,7 +1,7 @@
 (* C01/C02: the hypotheses of the list-level theorems (Inverse.v) are discharged for the tables that
    core::initialize() builds from ANY valid table row, for every degree 2 <= 2^k <= maxdeg. *)
 From Coq Require Import ZArith Lia List Arith Morphisms Setoid.
-From NTT Require Import Functors Algebra Layer Transform Rev Inverse Tables NTTInst.
+From NTT Require Import Functors Algebra Layer Transform Rev Inverse Tables Fused Structural NTTInst.
 Import ListNotations.
 Local Open Scope Z_scope.
 
@@ -175,6 +175,21 @@ Proof.
   rewrite <- Z.add_mod by lia. rewrite <- sum_add.
   change (cg p (sum n (fun t => nth t c 0 * pw (psi k0 ph j) t)) (sum n (fun i => nth i a 0 * pw (psi k0 ph j) i + nth i b 0 * pw (psi k0 ph j) i))).
   apply sum_cg; [exact Hp|]. intros t Ht. rewrite (Hc t Ht). rewrite cg_mod. unfold cg. f_equal. ring.
+Qed.
+(* ---------- the transform as structured in the source equals the generic one ---------- *)
+Theorem closed_struct_fwd x : length x = n -> ntt_fwd_s w p g K k0 x = ntt_fwd w p g K k0 x.
+Proof.
+  intros L. rewrite ntt_fwd_s_eq, ntt_fwd_eq. unfold fwd.
+  apply (ntt_core_eq w Hw p Hp H4p (ph * ph) (S k0) (om_half w p k0 ph iph Hphi) tw tws_ok); [lia | apply tab_length|].
+  intros idx Hidx. unfold twist. rewrite tab_nth by exact Hidx.
+  pose proof (Z.mod_pos_bound (nth idx x 0 * nth idx phs 0) p Hp). lia.
+Qed.
+
+Theorem closed_struct_inv y : canonical y -> ntt_inv_s w p g ik K k0 y = ntt_inv w p g ik K k0 y.
+Proof.
+  intros [L C]. rewrite ntt_inv_s_eq, ntt_inv_eq. unfold inv.
+  rewrite (ntt_core_eq w Hw p Hp H4p (iph * iph) (S k0) (om'_half w p Hp k0 ph iph Hphi Hinv) twi twsi_ok); [reflexivity | lia | apply tab_length|].
+  intros idx Hidx. unfold BR. rewrite tab_nth by exact Hidx. pose proof (C (rev (S k0) idx) (rev_lt (S k0) idx)). lia.
 Qed.
 End Closed.
 
